@@ -2207,11 +2207,31 @@ def layer_time_limit(ck):
         finally:
             srv.stop()
         results.append(out)
-    ts = [threading.Thread(target=run, args=x) for x in cases]
+    # at most 6 dedicated servers at a time (each may hold up to the script memory limit and spins a core): the verdicts
+    # must not depend on how loaded the machine is
+    gate = threading.Semaphore(6)
+
+    def gated(tag, src, must_fail):
+        with gate:
+            run(tag, src, must_fail)
+    finite = [x for x in cases if x[2] is False]
+    ts = [threading.Thread(target=gated, args=x) for x in cases if x[2] is not False]
     for t in ts:
         t.start()
     for t in ts:
-        t.join(limit + slack + 30)
+        t.join(4 * (limit + slack + 30))
+    # the finite scripts under the limits run alone, afterwards; one that was disturbed is tried again (twice) before it counts:
+    # a script that is finite and under the limits must pass on a quiet machine, the property says nothing about a starved one
+    for x in finite:
+        for attempt in range(3):
+            before = len(results)
+            run(*x)
+            if len(results) > before and not results[-1].get("bad") and not results[-1].get("harness_error"):
+                break
+            if attempt < 2 and len(results) > before:
+                rep.count("time-limit.finite-script-retried")
+                results.pop()
+                time.sleep(1.0)
     broken = [o for o in results if o.get("harness_error")]
     if broken or len(results) != len(cases):
         raise InternalError("time-limit layer: %s" % (broken[0]["harness_error"] if broken else "a case thread did not finish"))
